@@ -51,7 +51,9 @@ def gen_case(rng, i):
     if rng.random() < (0.6 if pinvish else 0.25):
         m = int(rng.integers(1 if name != "Krum" else 3, 6))
         n = int(rng.integers(m, m + 6))
-        J = M.well_conditioned(rng, m, n, cond=float(10 ** rng.uniform(0, 2)), scale=float(10 ** rng.uniform(-2, 3)))
+        # IMTL-G / ConFIG: condition numbers up to the limit of what their guards judge (tolerance grows with it)
+        cmax = 3.4 if name in ("IMTLG", "ConFIG") else 2
+        J = M.well_conditioned(rng, m, n, cond=float(10 ** rng.uniform(0, cmax)), scale=float(10 ** rng.uniform(-2, 3)))
         klass = "well_conditioned"
     else:
         J, klass = M.gen(rng, max_m=6, max_n=8)
@@ -145,7 +147,7 @@ def check_case(case, ctx):
             V = Vt[:r].T
             resid = float(np.linalg.norm(out1 - V @ (V.T @ out1)))
         ctx.maximum(f"span_{name}_{dname}", resid / scale)
-        if not resid <= E.tau(name, dname) * scale:
+        if not resid <= E.tau(name, dname, desc, J) * scale:
             ctx.violation("leaves_the_row_span", case, {"output": out1.tolist(), "residual": resid, "scale": scale})
     else:
         script = None
@@ -190,7 +192,7 @@ def check_case(case, ctx):
             ctx.not_judged("GradDrop:script_not_consumed")
             return
         exact_kind = kind in ("perm", "zeros", "zeros_many") and name in ("TrimmedMean", "Mean", "Sum", "Constant", "GradDrop", "Random")
-        t = 16 * eps * np.sqrt(m) if exact_kind else E.tau(name, dname)
+        t = 16 * eps * np.sqrt(m) if exact_kind else E.tau(name, dname, desc, J)
         err = float(np.linalg.norm(out2 - expect))
         ctx.maximum(f"{kind}_{name}_{dname}", err / scale)
         if not err <= t * scale:
